@@ -39,7 +39,13 @@ FLOWS = [
     # two backups taken by one context with small commits in between (content stays in the write-ahead log)
     {"name": "two-backups", "unclean": False, "template": False, "two": True},
     {"name": "two-backups+wal-pending", "unclean": True, "template": False, "two": True},
+    # a second context on the same file is half-way through get_all_pages() (holds a read snapshot that is older than the
+    # writer's last commits, so the write-ahead log cannot be checkpointed completely) while the backup is taken
+    {"name": "backup-with-reader", "unclean": False, "template": False, "reader": True},
+    {"name": "backup-with-reader+wal-pending", "unclean": True, "template": False, "reader": True},
 ]
+READER_PAGES = [("R1", 0, "committed before the reader's snapshot " + "y" * 300, None),
+                ("R2", 0, "committed after the reader's snapshot, before the backup " + "z" * 300, None)]
 
 
 def fingerprint(d):
@@ -156,6 +162,35 @@ def phase1_two(work):
     w.close_db_conn()
 
 
+def phase1_reader(work):
+    """Untraced prelude (the other context and the commits before the backup), traced: backup, later writes, close."""
+    from wikitextprocessor import Wtp
+
+    tr = sys.gettrace()
+    sys.settrace(None)
+    Wtp.get_page.cache_clear()
+    w = new_ctx(db_path=Path(work) / "t.db")
+    r = new_ctx(db_path=Path(work) / "t.db")
+    w.add_page(*READER_PAGES[0][:3])
+    w.db_conn.commit()
+    it = r.get_all_pages()
+    next(it)
+    w.add_page(*READER_PAGES[1][:3])
+    w.add_page("P3", 0, "P3 second version, committed before the backup " + "w" * 300)
+    w.db_conn.commit()
+    sys.settrace(tr)
+    w.backup_db()
+    w.add_page("Q2", 0, "written after the backup")
+    w.add_page("P0", 0, "P0 overwritten after the backup")
+    w.db_conn.commit()
+    sys.settrace(None)
+    for _ in it:
+        pass
+    r.close_db_conn()
+    sys.settrace(tr)
+    w.close_db_conn()
+
+
 def phase2(work):
     w = new_ctx(db_path=Path(work) / "t.db")
     w.close_db_conn()
@@ -206,7 +241,11 @@ def work(payload, skip, report):
         shutil.copytree(s0, wk)
         t1 = Tracer(str(wk), base, "p1")
         two = bool(flow.get("two"))
-        traced(phase1_two if two else phase1, t1, str(wk))
+        p1 = phase1_two if two else phase1_reader if flow.get("reader") else phase1
+        if flow.get("reader"):
+            want = sorted([p for p in want if p[0] != "P3"] + READER_PAGES
+                          + [("P3", 0, "P3 second version, committed before the backup " + "w" * 300, None)])
+        traced(p1, t1, str(wk))
         want2 = sorted(want + [("Q1", 0, "written after the first backup", None)])
 
         def expect(info):
@@ -272,7 +311,7 @@ def work(payload, skip, report):
                     tk.kill_at = info["event"]
                     sys.settrace(tk)
                     try:
-                        (phase1_two if two else phase1)(str(wk3))
+                        p1(str(wk3))
                     finally:
                         os._exit(78)
                 _, status = os.waitpid(pid, 0)
@@ -313,7 +352,7 @@ def main(run):
     cov = {
         "distinct_nontrivial": len(run.acc.sets.get("images", ())),
         "kill_points_enumerated": c["line_events_phase1"] + c["line_events_phase2"] + c["line_events_double"],
-        "rule": "6 flows (4 override flows + 2 flows with two backups taken by one context and small commits in between; database clean / with committed content pending in the write-ahead log x override set with / without a "
+        "rule": "8 flows (4 override flows + 2 flows with two backups taken by one context and small commits in between + 2 flows where the backup is taken while a second context on the same file is half-way through get_all_pages() and holds an older read snapshot; database clean / with committed content pending in the write-ahead log x override set with / without a "
                 "template, i.e. both branches of analyze_and_overwrite_pages); every executed source line of core.py and dumpparser.py "
                 "during open+backup+overwrite+commit+close and during the restoring re-open is a kill point; distinct on-disk states "
                 "(content hash of the directory) are the crash images, which is sound because recovery is a function of the files; for "
